@@ -85,11 +85,11 @@ Definition de_obs (e : endian) (pos : N) (wrap : gval -> gval) (r : res cerr (gv
   | Panic _ => B "PANIC"
   end.
 
-(* the two panics of the decoder model *)
+(* the panics of the decoder model: only the signature parser's recursion is left (PArith was the tuple framing-offset
+   read, class struct_offset_underflow, repaired by commit b5246470; no path of the model yields it any more) *)
 Definition panic_class {A} (r : res cerr A) : bytes :=
   match r with
   | Panic PStack => B "sig_parse_stack"
-  | Panic PArith => B "struct_offset_underflow"
   | Panic _ => B "other_panic"
   | _ => dash
   end.
